@@ -128,7 +128,10 @@ def dispatch (op : String) (args : List Str) : String :=
   match op, args with
   | "nameok", [k, s] => nameok (String.ofList k) s
   | "parse", [s] => opParse s
+  | "accept", [s] => opAccept "cur" s
+  | "accept", [w, s] => opAccept (String.ofList w) s
   | "print", [s] => opPrint s
+  | "roundtrip", [s] => opRoundtrip s
   | "chardata", k :: c :: ops => chardata (String.ofList k) c ops
   | _, _ => "bad-op"
 
